@@ -96,7 +96,7 @@ def plumbing_cases(ctx, count):
         if not es:
             es = [(0, 0)]
         m = graphs.csr_from_edges(nr2, es, m=nc2)
-        is_sym = square and (abs(m - m.T).nnz == 0)
+        is_sym = (nr2 == nc2) and (abs(m - m.T).nnz == 0)
         allow_dir = rng.random() < 0.5
         fb = rng.random() < 0.3
         mode = rng.choice(['values', 'rowcol', 'none'])
@@ -120,7 +120,7 @@ def plumbing_cases(ctx, count):
             nr2, nc2, enc_bool(is_sym), enc_bool(allow_dir), enc_bool(fb), _enc_values(val), _enc_values(vrow),
             _enc_values(vcol), enc_rat(d), which or 'none')
         cases.append(Case(('adjvals', run), {'entry': 'get_adjacency_values'}, run, impl, None, True,
-                          {'f': 'get_adjacency_values', 'line': run}))
+                          {'f': 'get_adjacency_values', 'line': run, 'dense': m.toarray().tolist()}))
     return cases
 
 
@@ -154,14 +154,14 @@ def _table():
     T.append(('PageRank(RH)', lambda: PageRank(solver='RH', n_iter=30), 'weights', True, ['scores']))
     T.append(('Katz', lambda: Katz(), None, False, ['scores']))
     for mod in ('newman', 'potts', 'dugue'):
-        T.append(('Louvain(%s)' % mod, (lambda mod=mod: Louvain(modularity=mod, shuffle_nodes=False)), None, True,
+        T.append(('Louvain(%s)' % mod, (lambda mod=mod: Louvain(modularity=mod, shuffle_nodes=False, random_state=0)), None, True,
                   ['labels', 'probs']))
-        T.append(('Leiden(%s)' % mod, (lambda mod=mod: Leiden(modularity=mod, shuffle_nodes=False)), None, True,
+        T.append(('Leiden(%s)' % mod, (lambda mod=mod: Leiden(modularity=mod, shuffle_nodes=False, random_state=0)), None, True,
                   ['labels', 'probs']))
     T.append(('PropagationClustering', lambda: PropagationClustering(), None, False, ['labels', 'probs']))
     T.append(('Paris', lambda: Paris(), None, False, ['dendrogram']))
-    T.append(('LouvainHierarchy', lambda: LouvainHierarchy(shuffle_nodes=False), None, True, ['dendrogram']))
-    T.append(('LouvainIteration', lambda: LouvainIteration(shuffle_nodes=False), None, True, ['dendrogram']))
+    T.append(('LouvainHierarchy', lambda: LouvainHierarchy(shuffle_nodes=False, random_state=0), None, True, ['dendrogram']))
+    T.append(('LouvainIteration', lambda: LouvainIteration(shuffle_nodes=False, random_state=0), None, True, ['dendrogram']))
     T.append(('Propagation', lambda: Propagation(), 'labels', False, ['labels', 'probs']))
     T.append(('DiffusionClassifier', lambda: DiffusionClassifier(), 'labels', False, ['labels', 'probs']))
     T.append(('NNClassifier', lambda: NNClassifier(n_neighbors=2), 'labels', False, ['labels', 'probs']))
